@@ -421,3 +421,37 @@ fn test_macro() {
 
     let _ = make_backsymbol_macro(&block, (5, 2), 3);
 }
+
+/**************************************/
+
+// Verification hooks (compiled only with `--cfg bb_verif`): read-only
+// access to the colour cache and the instruction memo.
+
+#[cfg(bb_verif)]
+impl TapeColorConverter {
+    fn verif_lookup(&self, color: Color) -> Option<Tape> {
+        self.color_to_tape_cache.borrow().get(&color).cloned()
+    }
+}
+
+#[cfg(bb_verif)]
+impl<P: GetInstr> MacroProg<'_, P, BlockLogic> {
+    pub fn verif_decode(&self, color: Color) -> Option<Vec<Color>> {
+        self.logic.converter.verif_lookup(color)
+    }
+
+    pub fn verif_memo(&self) -> CompProg {
+        self.instrs.borrow().clone()
+    }
+}
+
+#[cfg(bb_verif)]
+impl<P: GetInstr> MacroProg<'_, P, BacksymbolLogic> {
+    pub fn verif_decode(&self, color: Color) -> Option<Vec<Color>> {
+        self.logic.converter.verif_lookup(color)
+    }
+
+    pub fn verif_memo(&self) -> CompProg {
+        self.instrs.borrow().clone()
+    }
+}
